@@ -160,7 +160,7 @@ def removalTarget (C : Cls) (s : State V) : Op V → Option Field
   | _ => none
 
 /-- `KnownDefect`: the operation removes a present field while a property computed from it stays stored
-(schema.py:368-394, 418-441 recompute nothing) -/
+(schema.py:373-399, 422-445 recompute nothing) -/
 def knownDefect (C : Cls) (s : State V) (op : Op V) : Bool :=
   match removalTarget C s op with
   | some f => s.data.has f.name && f.dependants.any s.data.has
